@@ -3,7 +3,7 @@
    (brute force over arrangements; nested conflict sets), heredity and invariance.
    Statements only; proofs are in Proofs/SC.v.  Rankings are flat strict orders (list N). *)
 From Coq Require Import List Arith NArith Bool Permutation.
-From PrefVerif Require Import Lib.Perms Model.SC Proofs.SC.
+From PrefVerif Require Import Lib.Val Lib.Perms Model.Distances Model.SC Proofs.SC.
 Import ListNotations.
 
 (* the specification, unfolded (copied from the property text): the orders can be arranged in a
@@ -128,6 +128,64 @@ Theorem sc_seq_rev : forall alts s,
 Proof. exact Proofs.SC.sc_seq_rev. Qed.
 Print Assumptions sc_seq_rev.
 
+(* both references agree (as booleans), so either can serve as the judge *)
+Theorem sc_conflict_decide_eq : forall alts orders, sc_conflict_decide alts orders = sc_decide alts orders.
+Proof. exact Proofs.SC.sc_conflict_decide_eq. Qed.
+Print Assumptions sc_conflict_decide_eq.
+
+Theorem sc_conflict_decide_perm : forall alts alts' orders orders',
+  Permutation alts alts' -> Permutation orders orders' ->
+  sc_conflict_decide alts orders = sc_conflict_decide alts' orders'.
+Proof. exact Proofs.SC.sc_conflict_decide_perm. Qed.
+Print Assumptions sc_conflict_decide_perm.
+
+Theorem sc_conflict_decide_relabel : forall f : N -> N, (forall x y, f x = f y -> x = y) ->
+  forall alts orders, sc_conflict_decide (map f alts) (map (map f) orders) = sc_conflict_decide alts orders.
+Proof. exact Proofs.SC.sc_conflict_decide_relabel. Qed.
+Print Assumptions sc_conflict_decide_relabel.
+
+(* a sufficient criterion reused by C19: every pair is monotone along the sequence *)
+Theorem sc_seq_of_monotone : forall alts s,
+  (forall a b, In a alts -> In b alts -> a <> b ->
+     exists v : bool, Sorted.StronglySorted (fun o1 o2 => prefers o1 a b = v -> prefers o2 a b = v) s) ->
+  forall a b, In a alts -> In b alts -> a <> b -> switches a b s <= 1.
+Proof. exact Proofs.SC.sc_seq_of_monotone. Qed.
+Print Assumptions sc_seq_of_monotone.
+
+(* ---- the link to the Kendall-tau distance used by the code ---- *)
+(* prefers is the comparison o.index(a) < o.index(b) of the Python code (idx = tuple.index, C20 model) *)
+Theorem prefers_idx : forall o a b, prefers o a b = (idx o a <? idx o b).
+Proof. exact Proofs.SC.prefers_idx. Qed.
+Print Assumptions prefers_idx.
+
+(* ktd is kendall_tau_distance (C20 model) on rankings over the same alternatives, and it counts the
+   unordered pairs of alternatives on which the two rankings disagree *)
+Theorem ktd_kendall_tau : forall alts o1 o2, Permutation alts o1 -> Permutation alts o2 ->
+  kendall_tau o1 o2 = Ok (ktd o1 o2).
+Proof. exact Proofs.SC.ktd_kendall_tau. Qed.
+Print Assumptions ktd_kendall_tau.
+
+Theorem ktd_pairs : forall alts o1 o2, NoDup alts -> Permutation alts o1 -> Permutation alts o2 ->
+  ktd o1 o2 = length (filter (fun p => conflict o1 o2 (fst p) (snd p)) (pairs alts)).
+Proof. exact Proofs.SC.ktd_pairs. Qed.
+Print Assumptions ktd_pairs.
+
+(* the verification pass of is_single_crossing (_is_ordered_profile_single_crossing, mirrored by
+   ordered_check: K(s_0,s_i) + K(s_i,s_i+1) = K(s_0,s_i+1) for all i >= 1) accepts exactly the single-crossing
+   sequences of strict complete orders *)
+Theorem ordered_check_correct : forall alts s, NoDup alts -> Forall (fun o => Permutation alts o) s ->
+  (ordered_check s = true <->
+   forall a b, In a alts -> In b alts -> a <> b -> switches a b s <= 1).
+Proof. exact Proofs.SC.ordered_check_correct. Qed.
+Print Assumptions ordered_check_correct.
+
+(* switches-free characterisation: Kendall tau is additive along every triple i < j < k of the sequence *)
+Theorem sc_seq_kt_triples : forall alts s, NoDup alts -> Forall (fun o => Permutation alts o) s ->
+  ((forall a b, In a alts -> In b alts -> a <> b -> switches a b s <= 1) <->
+   forall l1 x l2 y l3 z l4, s = l1 ++ x :: l2 ++ y :: l3 ++ z :: l4 -> ktd x y + ktd y z = ktd x z).
+Proof. exact Proofs.SC.sc_seq_kt_triples. Qed.
+Print Assumptions sc_seq_kt_triples.
+
 (* ---- non-vacuity ---- *)
 Local Open Scope N_scope.
 Definition ex_alts : list N := [1; 2; 3; 4].
@@ -192,3 +250,7 @@ Example ex_core :
     [[5;4;1;2;3]; [1;5;2;4;3]; [1;2;3;4;5]; [4;2;3;5;1]; [3;1;4;2;5]; [2;1;3;4;5]]
     [1;2;3] [false; true; false; true; true; false] = true.
 Proof. vm_compute. reflexivity. Qed.
+
+Example ex_ordered : ordered_check ex_seq = true /\ ordered_check ex_orders = false
+                     /\ ktd [1;2;3;4] [3;2;4;1] = 4%nat.
+Proof. repeat split; vm_compute; reflexivity. Qed.
